@@ -82,6 +82,14 @@ pub enum StageOutput {
 }
 
 impl StageOutput {
+    // A compiled unit cannot be copied faithfully: `Heap::clone()` gives an empty heap
+    // (objects aren't clonable) and `Function::clone()` shares the bytecode buffer that
+    // the VM patches in place. Serving a copy from the cache would hand out constants
+    // that point nowhere, so such outputs are recomputed instead of cached.
+    pub(crate) fn cacheable(&self) -> bool {
+        !matches!(self, StageOutput::Compiled(_, _, _))
+    }
+
     pub(crate) fn into_input(self) -> Result<StageInput, PipelineError> {
         match self {
             StageOutput::Tokens(t, s) => Ok(StageInput::Tokens(t, s)),
